@@ -105,3 +105,42 @@ impl Future for Yield {
         }
     }
 }
+
+/// Outcome of `drive`.
+pub enum Driven<T> {
+    Done(T),
+    /// The scheduler went idle and `on_idle` declined to continue. The future has been leaked
+    /// (scope futures abort the process when dropped before completion).
+    Stuck,
+}
+
+/// Polls `fut` to completion; whenever no task is runnable and `fut` is still pending, calls
+/// `on_idle(k)` (k = 1, 2, ...): `true` = an environment action was performed, keep going.
+pub async fn drive<T, F: Future<Output = T>>(idle: &Idle, fut: F, mut on_idle: impl FnMut(u32) -> bool) -> Driven<T> {
+    let mut fut = Box::pin(fut);
+    let mut k = 0;
+    idle.flag.store(false, SeqCst);
+    loop {
+        let step = std::future::poll_fn(|cx| {
+            if let Poll::Ready(r) = fut.as_mut().poll(cx) {
+                return Poll::Ready(Some(r));
+            }
+            if idle.flag.swap(false, SeqCst) {
+                return Poll::Ready(None);
+            }
+            *idle.waker.lock().unwrap() = Some(cx.waker().clone());
+            Poll::Pending
+        })
+        .await;
+        match step {
+            Some(r) => return Driven::Done(r),
+            None => {
+                k += 1;
+                if !on_idle(k) {
+                    std::mem::forget(fut);
+                    return Driven::Stuck;
+                }
+            }
+        }
+    }
+}
